@@ -222,6 +222,40 @@ def run(ck: Check):
             step = next(i for i, (a, b_) in enumerate(zip(r1, r2)) if a != b_)
             ck.violation(dict(clause="reset-behaviour", detector="KSWIN", scenario="draw-decides"),
                          dict(what="after reset() (NumPy's global generator re-seeded identically) KSWIN's outputs differ from those of a newly constructed detector", config=kw, prefix=pre, suffix=suf[: step + 1], reseed=s2, step=step, after_reset=r1[step][:2], fresh=r2[step][:2]))
+    # ECDD-WT with a SMALL lambda_ (the variance factor 1 - (1-lambda_)^(2t) is then far from 1 for a long time after a
+    # reset: anything carried across the reset shows) and a level change soon after the restarted warm-up
+    from frouros.detectors.concept_drift import ECDDWT as _ECDD, ECDDWTConfig as _ECDDConfig
+
+    grid = [(lam, arl, quiet) for lam in (0.02, 0.05) for arl in (100, 1000) for quiet in (35, 52, 70)]
+    if thorough:
+        grid += [(lam, arl, quiet) for lam in (0.01, 0.03) for arl in (100, 400, 1000) for quiet in (35, 52, 70)]
+    for k, (lam, arl, quiet) in enumerate(grid):
+        kw = dict(lambda_=lam, average_run_length=arl, min_num_instances=prng.choice([10, 30]))
+        pre = [int(prng.random() < 0.25) for _ in range(prng.choice([80, 240]))]
+        suf = [0] * quiet + [1] * 60
+        try:
+            d1 = _ECDD(config=_ECDDConfig(**kw))
+            for v in pre:
+                d1.update(value=v)
+            d1.reset()
+            r1 = []
+            for v in suf:
+                d1.update(value=v)
+                r1.append((bool(d1.drift), bool(d1.warning), int(d1.num_instances)))
+            d2 = _ECDD(config=_ECDDConfig(**kw))
+            r2 = []
+            for v in suf:
+                d2.update(value=v)
+                r2.append((bool(d2.drift), bool(d2.warning), int(d2.num_instances)))
+        except Exception as e:  # noqa: BLE001
+            ck.violation(dict(clause="raises", detector="ECDDWT", error=type(e).__name__, scenario="small-lambda"), dict(config=kw, error=repr(e)))
+            continue
+        ck.case(dict(detector="ECDDWT", config=kw, kind="small-lambda-after-reset", prefix_len=len(pre)), nontrivial=any(a[0] or a[1] for a in r2), key=repr(("ecdd-small", kw, pre[:5], suf[:5])))
+        ck.count("ecdd_small_lambda_cases")
+        if r1 != r2:
+            step = next(i for i, (a, b_) in enumerate(zip(r1, r2)) if a != b_)
+            ck.violation(dict(clause="reset-behaviour", detector="ECDDWT", scenario="small-lambda"),
+                         dict(what="after reset() ECDD-WT's flags differ from those of a newly constructed detector", config=kw, prefix=pre, suffix=suf[: step + 1], step=step, after_reset=r1[step], fresh=r2[step]))
     # model correspondence on the same histories
     models = run_models("C02", corr)
     from detectors import corr_compare
